@@ -455,6 +455,20 @@ pub fn directed(names: &[String]) -> Vec<Trace> {
         steps.push(cmp());
         v.push(mk(format!("rejected-set-then-file-changes-{}", name), true, steps));
     }
+    // the user changes a preference in the file and the FIRST call that notices it is one that temporarily rewrites that
+    // preference itself (cursor routing and the highlight style) or one of each other kind
+    for (k, first) in [Op::NodeFromPos(PosRef::Abs(1)), Op::Braille(IdRef::Nth(2)), Op::BraillePos, Op::Cmd("MoveNext".into()), Op::Overview, Op::NavBraille].iter().enumerate() {
+        let mut steps = vec![Step::Call(Op::Speech), Step::Call(Op::Braille(IdRef::Empty))];
+        for (name, value) in [("BrailleNavHighlight", "Off"), ("Verbosity", "Terse"), ("NavVerbosity", "Terse"), ("BrailleNavHighlight", "All")] {
+            steps.push(Step::Env(EnvEvent::Clock { ms: 1000 }));
+            steps.push(Step::Env(EnvEvent::EditSysPref { mount: MOUNT_A.into(), name: name.into(), value: value.into() }));
+            steps.push(Step::Call(first.clone()));
+            steps.push(cmp());
+            steps.push(Step::Call(Op::SetMathml(ExprRef::Pool(5))));
+            steps.push(cmp());
+        }
+        v.push(mk(format!("file-change-first-noticed-by-{}-{}", k, first.name()), true, steps));
+    }
     // language flows
     v.push(mk(
         "language-auto-flows".into(),
